@@ -733,6 +733,8 @@ def ctl_h(name, desc, tier="quick", ilen=16, p=1, timeout=3000, mem=8, **params)
         # retry loop of Sign::send_data (its last-numbered loop) can be unrolled att times only; the unwinding
         # assertion proves that no further iteration is reachable under that cut
         rules = [(r"send_data.*\.2$", att + 1)] + rules
+    if params.get("polls"):
+        rules = [("switch_page", params["polls"] + 3)] + rules
     return H(name, desc, tier=tier, unwind=max(5, p + 2, (ilen + 15) // 16 + 2), unwindset=rules, params=params, timeout=timeout, mem_gb=24, mem_expect=mem)
 
 
